@@ -230,6 +230,8 @@ def coerce(v: V, kind: str) -> V:
         return v  # subclass relations are not modelled
     if isinstance(v, VBool) and kind == "int":
         return VInt(z3.If(v.t, 1, 0))
+    if isinstance(v, VStrConst) and kind == "str":
+        return str_const(v.s)
     if isinstance(v, VOpt) and not kind.startswith("opt["):
         raise KindError(f"cannot view optional {v.kind} as {kind}")
     raise KindError(f"cannot view {v.kind} as {kind}")
